@@ -62,6 +62,14 @@ Qed.
 Lemma gen_isin_is_model : forall (st : cstate) (q : quad), isInContainer_src st q = isInContainer st q.
 Proof. intros st q. unfold isInContainer_src, gen_isInContainer, emap_count, isInContainer. destruct (qfind q (emap st)); reflexivity. Qed.
 
+(** the generated createElement IS: C1, C2 = annihilation operators of Index1, Index2; CX3, CX4 = creation operators of Index3, Index4;
+    new TwoParticleGF(S, H, C1, C2, CX3, CX4, DM) *)
+Lemma gen_createElement_is_model : forall (Key AnnOp CrOp Obj : Type) (Index : Key -> nat -> nat) (getA : nat -> AnnOp) (getC : nat -> CrOp)
+                                          (new : AnnOp -> AnnOp -> CrOp -> CrOp -> Obj) (key : Key),
+  gen_createElement Key AnnOp CrOp Obj Index getA getC new key =
+  new (getA (Index key 0%nat)) (getA (Index key 1%nat)) (getC (Index key 2%nat)) (getC (Index key 3%nat)).
+Proof. reflexivity. Qed.
+
 Lemma gen_create_is_model : forall q : quad, created_quad_src q = q.
 Proof. intros [[[a b] c] d]. reflexivity. Qed.
 
@@ -77,10 +85,6 @@ Proof.
   apply flat_map_ext'; intro i1. apply flat_map_ext'; intro i2. apply flat_map_ext'; intro i3. apply flat_map_single.
 Qed.
 
-
-(** one alias block: if (c) { if (!isInContainer(k)) ElementsMap.insert(pair(k, (e, permutations4[idx]))); } *)
-Definition alias_block (e : nat) (c : bool) (k : quad) (idx : nat) (st : cstate) : cstate :=
-  if c then (if negb (isInContainer_src st k) then fst (emap_insert st k (mkentry_src e idx)) else st) else st.
 
 (** the generated set IS: create, owner entry with permutation 0, NonTrivialElements, then the three alias blocks
     (2134 / perm 6 when i1 <> i2; 1243 / perm 1 when i3 <> i4; 2143 / perm 7 when both) *)
@@ -241,16 +245,6 @@ Qed.
 
 
 (** * The colour maps of computeAll_split *)
-Definition maps3 := (gen_zmap * gen_zmap * gen_zmap)%type.
-
-(** loop over the ranks: proc_colors[p] = colour of p; color_roots[colour] = p unless the colour has a root already *)
-Definition root_body (f : Z -> Z) (m : maps3) (i : Z) : maps3 :=
-  let '(pc, ec, cr) := m in
-  (gen_zm_set pc i (f i), ec, if negb (gen_zm_count cr (f i)) then gen_zm_set cr (f i) i else cr).
-(** loop over the components: elem_colors[i] = colour of component i *)
-Definition elem_body (g : Z -> Z) (m : maps3) (i : Z) : maps3 :=
-  let '(pc, ec, cr) := m in (pc, gen_zm_set ec i (g i), cr).
-
 (** the generated statements in front of the first barrier ARE these two loops, with the arithmetic of PVgen.Gen_SplitColors *)
 Lemma gen_split_maps_is_model : forall P n : Z,
   gen_split_maps P n =
@@ -318,16 +312,6 @@ Proof.
   split; [reflexivity|]. split; [exact G|]. intros k. rewrite G. reflexivity.
 Qed.
 
-
-(** what rank [rank] of [P] does in the two loops of the generated computeAll_split, in terms of the colour maps:
-    the computation loop computes the components of this rank's colour on the split communicator; the distribution loop marks
-    every part-carrying component Computed on the ranks other than the sender *)
-Definition split_compute_body (P rank n : Z) (x : xstate) (ckv : Z * (quad * nat)) : xstate :=
-  if Z.eqb (split_elem_color P n (fst ckv)) (split_proc_color P n rank) then lift_step compute_elem (snd (snd ckv)) x else x.
-
-Definition split_distribute_body (P rank n : Z) (np : nat -> Z) (x : xstate) (ckv : Z * (quad * nat)) : xstate :=
-  fold_left (fun x _ => if negb (Z.eqb rank (split_sender P n (fst ckv))) then set_status_src (snd (snd ckv)) x else x)
-            (gen_zrange 0 (np (snd (snd ckv)))) x.
 
 Lemma gen_computeAll_split_is_model : forall (P rank : Z) (np : nat -> Z) (st : cstate),
   compute_all_split_src P rank np st =
@@ -479,10 +463,6 @@ Theorem perm_table_correct_src :
   length gen_permutations4 = 24%nat /\ gen_permutations4_declared_size = 24%nat /\
   NoDup (map fst gen_permutations4) /\ Forall perm_ok gen_permutations4.
 Proof. destruct gen_perms_is_model as [E1 E2]. rewrite E1, E2. exact perm_table_correct. Qed.
-
-(** an entry (element for q0, permutation p) stored under key q returns chi q -- with the generated operator() *)
-Definition entry_denotes_src (V : Type) (vscale : Z -> V -> V) (chi : quad -> triple -> V) (p : perm4) (q0 q : quad) : Prop :=
-  forall n, vscale (fst (perm_eval_src p n)) (chi q0 (snd (perm_eval_src p n))) = chi q n.
 
 Section Chi.
 Variable V : Type.
